@@ -17,7 +17,9 @@ STMT_KINDS = ("function", "class")
 EXPR_KINDS = ("lambda", "comp")
 ROLES = {
     "module": ("none", "read", "assign", "aug", "walrus", "for", "def", "class", "import"),
-    "function": ("none", "read", "assign", "aug", "walrus", "for", "def", "class", "import", "param", "global-assign",
+    "function": ("none", "read", "assign", "aug", "walrus", "for", "def", "class", "import", "param",
+                 # every kind of parameter is a local of the function (captured by inner scopes like any other)
+                 "param-star", "param-kwstar", "param-kwonly", "param-posonly", "param-default", "global-assign",
                  "global-read", "nonlocal-assign", "nonlocal-read", "nonlocal-aug", "late-assign",
                  # a (never executed) mention of __class__ BEFORE the name is used: in a method the implicit __class__ cell
                  # then precedes the name in the list of free variables
@@ -68,7 +70,8 @@ class Render:
             "def": [f"def {x}():", f"    return {t}", rd],
             "class": [f"class {x}:", f"    v = {t}", rd],
             "import": [f"import math as {x}", rd],
-            "param": [rd],
+            "param": [rd], "param-star": [rd], "param-kwstar": [rd], "param-kwonly": [rd], "param-posonly": [rd],
+            "param-default": [rd],
             "global-assign": [f"global {x}", f"{x} = {t}", rd],
             "global-read": [f"global {x}", f"print({sid}, 'r', show({x}))"],
             "nonlocal-assign": [f"nonlocal {x}", f"{x} = {t}", rd],
@@ -104,6 +107,16 @@ class Render:
         if node.kind == "function":
             if node.role == "param":
                 return [f"def f{sid}({x}):"] + ind + [f"f{sid}({self.tag()})"]
+            if node.role == "param-star":
+                return [f"def f{sid}(*{x}):"] + ind + [f"f{sid}({self.tag()}, {self.tag()})"]
+            if node.role == "param-kwstar":
+                return [f"def f{sid}(**{x}):"] + ind + [f"f{sid}(k={self.tag()})"]
+            if node.role == "param-kwonly":
+                return [f"def f{sid}(*, {x}):"] + ind + [f"f{sid}({x}={self.tag()})"]
+            if node.role == "param-posonly":
+                return [f"def f{sid}({x}, /):"] + ind + [f"f{sid}({self.tag()})"]
+            if node.role == "param-default":
+                return [f"def f{sid}({x}={self.tag()}):"] + ind + [f"f{sid}()"]
             return [f"def f{sid}():"] + ind + [f"f{sid}()"]
         return [f"class C{sid}:"] + ind
 
@@ -218,7 +231,7 @@ def binder_trees():
     inner = [Node("lambda", r) for r in ROLES["lambda"] if r.startswith("param")] + \
             [Node("comp", r) for r in ("target", "iter-target", "walrus")]
     for r0 in ("none", "assign"):
-        for owner in ("assign", "param", "for", "def"):
+        for owner in ("assign", "param", "param-star", "param-kwstar", "param-kwonly", "for", "def"):
             for b in inner:
                 def copy():
                     return Node(b.kind, b.role, [Node("lambda", "read")] if b.role != "walrus" else [])
